@@ -2,7 +2,7 @@
 next instruction of a process is a choice made when the process is about to execute it), every
 trigger / registration / invocation / resumption is logged, and reference oracles evaluate the
 log.  Used by C01, C02, C04 (and as program generator by C03, C20)."""
-from onl.sim import Environment, Interrupt
+from onl.sim import Environment, Interrupt, StopProcess
 from onl.sim.core import EmptySchedule
 
 INF = float("inf")
@@ -20,7 +20,8 @@ class Abort(BaseException):
 class K:
     """One execution of one lazily generated program."""
 
-    def __init__(self, ch, ops, depth, nproc=2, maxproc=4, env=None, nevents=2, stop_at=None, reaction=True):
+    def __init__(self, ch, ops, depth, nproc=2, maxproc=4, env=None, nevents=2, stop_at=None, reaction=True, probe_procs=True,
+                 falsy_causes=False):
         self.ch = ch
         self.ops = ops
         self.depth = depth
@@ -44,6 +45,9 @@ class K:
         self.bad = []            # violations detected online: (generic clause, shape, msg)
         self.events = []
         self.stop_at = stop_at
+        self.nfalsy = 0
+        self.probe_procs = probe_procs      # False: no callback of ours on process events (they start with an empty waiter list)
+        self.falsy_causes = falsy_causes
         for e in range(nevents):
             ev = self.env.event()
             lab = ("ev", e)
@@ -75,8 +79,11 @@ class K:
         p = self.env.process(self.body(pid))
         self.procs[pid] = p
         lab = ("p", pid)
-        self.reg[lab] = ["probe"]
-        p.callbacks.append(self._probe(lab))
+        if self.probe_procs:
+            self.reg[lab] = ["probe"]
+            p.callbacks.append(self._probe(lab))
+        else:
+            self.reg[lab] = []
         self.trigger(("start", pid), self.env.now, URG)
         return p
 
@@ -117,7 +124,7 @@ class K:
             try:
                 v = yield evt
                 out = ("ok", v)
-            except (Err, Abort) as e:
+            except (Err, Abort, StopProcess) as e:
                 out = ("exc", e.args)
                 exc = e
             except Interrupt as i:
@@ -155,6 +162,10 @@ class K:
             if kind == "raiseB":
                 self.finish(pid, False, (("bv", pid),))
                 raise Abort(("bv", pid))
+            if kind == "raiseSP":
+                # the exported StopProcess class is an ordinary exception for the kernel: the process fails with it
+                self.finish(pid, False, (("sp", pid),))
+                raise StopProcess(("sp", pid))
             if kind == "ret0":
                 # a falsy return value must reach the joiners as it is
                 val = (0, "", False)[pid % 3]
@@ -224,6 +235,9 @@ class K:
     def interrupt(self, pid, o):
         self.nid += 1
         cause = ("intr", self.nid)
+        if self.falsy_causes and self.nfalsy < 3:
+            cause = (0, "", ())[self.nfalsy]         # legal causes that happen to be falsy (each used once, so still unique)
+            self.nfalsy += 1
         legal = o != pid and o in self.alive
         try:
             self.procs[o].interrupt(cause)
@@ -256,7 +270,7 @@ class K:
                     break
         except BaseException as e:  # noqa
             self.crashed = (self.env.now, type(e).__name__, getattr(e, "args", ()), e)
-            self.L("crash", type(e).__name__, e.args if isinstance(e, (Err, Abort, Interrupt)) else ())
+            self.L("crash", type(e).__name__, e.args if isinstance(e, (Err, Abort, Interrupt, StopProcess)) else ())
         return self
 
     def digest(self):
@@ -348,8 +362,15 @@ def check_delivery(k):
     # group invocations by event label
     inv = {}
     expect_crash = None
+    cands = []        # unprobed failing processes nobody joins: their failure must crash the run when it is processed (moment unobserved)
     for ent in log:
         kind = ent[3]
+        if kind == "end" and not k.probe_procs and ent[5] is False and expect_crash is None:
+            # unprobed process that failed: handled iff somebody joins it before its termination is processed - not observable
+            # without a probe, so only the case 'nobody ever joins it' is judged
+            pid = ent[4]
+            if not any(e[3] == "yield" and e[5] == ("p", pid) for e in log):
+                cands.append((ent[2], ent[6], ("p", pid)))
         if kind == "probe":
             label, reg = ent[4], ent[5]
             inv[label] = {"step": ent[1], "now": ent[2], "reg": list(reg), "got": ["probe"]}
@@ -394,6 +415,8 @@ def check_delivery(k):
                 if ent[1] != y[1]:
                     out.append(("processed", "already-processed-event-did-not-resume-at-once", "p%d on %r yielded in step %d resumed in step %d" % (pid, label, y[1], ent[1])))
                     return out, nontrivial
+            elif label[0] == "p" and not k.probe_procs:
+                pass        # no probe on process events in this mode: only value, termination and liveness are judged
             else:
                 rec = inv.get(label)
                 if rec is None or rec["step"] != ent[1]:
@@ -415,7 +438,19 @@ def check_delivery(k):
             if lab is not None and lab in k.processed:
                 out.append(("once", "waiter-never-invoked", "p%d still waiting on processed %r" % (pid, lab)))
                 return out, nontrivial
+            if lab is not None and lab[0] == "p" and lab in k.outcome and not k.probe_procs:
+                # the run is over (nothing scheduled) and the joined process has terminated: its termination must have been delivered
+                out.append(("term", "joiner-of-a-terminated-process-never-resumed", "p%d still waiting on %r whose body ended with %r" % (pid, lab, k.outcome[lab])))
+                return out, nontrivial
     # crash prediction
+    if cands:
+        allowed = ([expect_crash] if expect_crash else []) + cands
+        if k.crashed is None:
+            t, pay, label = allowed[0]
+            out.append(("crash", "unhandled-failure-of-%s-passed-silently" % kindname(label), "failure of %r at %r, no process waiting" % (label, t)))
+        elif not any(k.crashed[0] == t and k.crashed[1] in ("Err", "Abort", "StopProcess") and tuple(k.crashed[2]) == tuple(pay) for (t, pay, label) in allowed):
+            out.append(("crash", "unhandled-failure-raised-wrongly", "expected one of %r, run raised %r" % ([(t, pay) for (t, pay, l) in allowed], k.crashed[:3])))
+        return out, nontrivial
     if expect_crash is None:
         if k.crashed is not None:
             out.append(("crash", "run-raised-%s-although-every-failure-was-handled" % k.crashed[1], "%r" % (k.crashed[:3],)))
@@ -423,7 +458,7 @@ def check_delivery(k):
         t, pay, label = expect_crash
         if k.crashed is None:
             out.append(("crash", "unhandled-failure-of-%s-passed-silently" % kindname(label), "failure of %r at %r, no process waiting" % (label, t)))
-        elif k.crashed[0] != t or k.crashed[1] not in ("Err", "Abort") or tuple(k.crashed[2]) != tuple(pay):
+        elif k.crashed[0] != t or k.crashed[1] not in ("Err", "Abort", "StopProcess") or tuple(k.crashed[2]) != tuple(pay):
             out.append(("crash", "unhandled-failure-raised-wrongly", "expected Err%r at %r, run raised %r" % (pay, t, k.crashed[:3])))
     return out, nontrivial
 
